@@ -15,6 +15,7 @@ import Proofs.WFOps
 import Proofs.Foliate
 import Proofs.CircuitBox
 import Proofs.CatArrow
+import Proofs.TyClass
 
 namespace DV.C01
 open DV
@@ -257,5 +258,47 @@ example : (CExpr.functor ⟨[([x], [y]), ([y], [z]), ([z], [x])], [(cf, bx cg), 
 example : isErr (Expr.thenN (.id [x]) [.box e, .box s]).eval .axiom = true := by decide
 example : okWith (Expr.thenN (.id [y]) [.box e, .box s]).eval
     (fun d => d.boxes == [e, s] && d.dom == [y]) = true := by decide
+
+/-! ### Across type classes: the coercion of `Ty.tensor` / `Ty.__getitem__` to the class of the receiver
+
+`t @ u` is `type(t).upgrade(Ty(*t.objects, *u.objects))` (monoidal.py:126-130): dom and cod of a tensor
+of diagrams of DIFFERENT classes are computed with it (monoidal.py:425).  For C01 the coercion has to hand
+back the objects it was given — then `Diagram.tensor` is the class-free `tensor_wf` above — or refuse. -/
+
+/-- The statement: a coercion that answers, answers with the same objects. -/
+def TyClassKeepsObjects (c : TyClass) : Prop :=
+  ∀ t r : Ty, t.Flat → c.upgrade t = .ok r → r = t
+
+/-- Named type classes (monoidal.Ty, rigid.Ty, circuit.Ty): the objects as they are. -/
+theorem tyclass_ty_keeps : TyClassKeepsObjects .ty :=
+  fun t r _ h => by rw [TyClass.upgrade_ty] at h; injection h with h; exact h.symm
+
+/-- PRO (zx, cartesian, rigid.PRO, monoidal.PRO): the objects as they are ... -/
+theorem tyclass_pro_keeps : TyClassKeepsObjects .pro :=
+  fun _ _ hz h => TyClass.upgrade_pro_keeps h hz
+
+/-- ... and a type with a wire that is not PRO's generating object `1` is refused: `PRO(n) @ Ty('x')`,
+    hence `zx.Z(1, 2) @ rigid.Box('f', x, y)`, is a TypeError. -/
+theorem tyclass_pro_refuses_named (t u : Ty) (h : ∃ o ∈ u, o.name ≠ "1") :
+    Ty.tensorAs .pro t u = .error .type :=
+  TyClass.upgrade_pro_refuses (by
+    obtain ⟨o, ho, hn⟩ := h
+    exact ⟨o, by simp [ho], hn⟩)
+
+example : Ty.tensorAs .pro [⟨"1", 0⟩, ⟨"1", 0⟩] [⟨"'x'", 0⟩] = .error .type := by decide
+example : Ty.tensorAs .pro [⟨"1", 0⟩] [⟨"1", 0⟩, ⟨"1", 0⟩] = .ok [⟨"1", 0⟩, ⟨"1", 0⟩, ⟨"1", 0⟩] := by decide
+example : Ty.tensorAs .ty [⟨"'x'", 1⟩] [⟨"1", 0⟩] = .ok [⟨"'x'", 1⟩, ⟨"1", 0⟩] := by decide
+
+/-- Dim does NOT keep the objects: `Dim(2) @ PRO(1)` is `Dim(2)` (finding F5c01a) ... -/
+theorem tyclass_dim_drops_one : ¬ TyClassKeepsObjects .dim := fun h => by
+  have := h [⟨"2", 0⟩, ⟨"1", 0⟩] [⟨"2", 0⟩] (by intro o ho; simp at ho; rcases ho with rfl | rfl <;> rfl) TyClass.upgrade_dim_drops
+  exact absurd this (by decide)
+
+/-- ... it keeps them on types whose names are ints > 1 (every type of class Dim is one). -/
+theorem tyclass_dim_keeps_partial (t : Ty) (h : ∀ o ∈ t, nameKind o.name = .pos ∧ o.z = 0) :
+    TyClass.upgrade .dim t = .ok t := dimObs_keeps h
+
+example : TyClass.upgrade .dim [⟨"2", 0⟩, ⟨"3", 0⟩] = .ok [⟨"2", 0⟩, ⟨"3", 0⟩] :=
+  tyclass_dim_keeps_partial _ (by decide)
 
 end DV.C01
